@@ -61,6 +61,41 @@ def real_script():
         obs.append(("flags_roundtrip", fcntl.fcntl(s, fcntl.F_GETFL) == fl))
         obs.append(("setfl_cannot_change_access_mode", (fcntl.fcntl(s, fcntl.F_GETFL) & os.O_ACCMODE) == (fl & os.O_ACCMODE)))
         obs.append(("pipe_read_partial", os.read(r, 1024)))
+        # non-canonical MIN/TIME
+        def mt(vmin, vtime):
+            a = termios.tcgetattr(s)
+            a[6][termios.VMIN], a[6][termios.VTIME] = vmin, vtime
+            termios.tcsetattr(s, termios.TCSANOW, a)
+        mt(0, 0)
+        obs.append(("min0_time0_empty_read", os.read(s, 10)))
+        fcntl.fcntl(s, fcntl.F_SETFL, fl | os.O_NONBLOCK)
+        try:
+            obs.append(("min0_time0_empty_read_nonblock", os.read(s, 10)))
+        except BlockingIOError:
+            obs.append(("min0_time0_empty_read_nonblock", "EAGAIN"))
+        fcntl.fcntl(s, fcntl.F_SETFL, fl)
+        mt(0, 2)
+        t0 = time.monotonic()
+        d = os.read(s, 10)
+        obs.append(("min0_time2_empty_read", (d, 0.15 <= time.monotonic() - t0 < 1.0)))
+        mt(3, 0)
+        os.write(m, b"ab")
+        time.sleep(0.05)
+        obs.append(("min3_two_bytes_not_selectable", select.select([s], [], [], 0)[0] == []))
+        fcntl.fcntl(s, fcntl.F_SETFL, fl | os.O_NONBLOCK)
+        try:
+            obs.append(("min3_two_bytes_nonblock_read", os.read(s, 10)))
+        except BlockingIOError:
+            obs.append(("min3_two_bytes_nonblock_read", "EAGAIN"))
+        fcntl.fcntl(s, fcntl.F_SETFL, fl)
+        os.write(m, b"cde")
+        time.sleep(0.05)
+        obs.append(("min3_selectable", select.select([s], [], [], 0)[0] == [s]))
+        obs.append(("min3_read_small_n", os.read(s, 2)))
+        os.write(m, b"fg")
+        time.sleep(0.05)
+        obs.append(("min3_read_rest", os.read(s, 10)))
+        mt(1, 0)
         # wake-up fd must be non-blocking
         try:
             old = signal.set_wakeup_fd(w)
@@ -143,6 +178,37 @@ def sim_script():
     obs.append(("setfl_cannot_change_access_mode", (k.fcntl(s, fcntl.F_GETFL) & os.O_ACCMODE) == (fl & os.O_ACCMODE)))
     k.fcntl(s, fcntl.F_SETFL, fl)
     obs.append(("pipe_read_partial", k.read(r, 1024)))
+    def mt(vmin, vtime):
+        a = k.tcgetattr(s)
+        a[6][termios.VMIN], a[6][termios.VTIME] = vmin, vtime
+        k.tcsetattr(s, termios.TCSANOW, a)
+    mt(0, 0)
+    obs.append(("min0_time0_empty_read", k.read(s, 10)))
+    k.fcntl(s, fcntl.F_SETFL, fl | os.O_NONBLOCK)
+    try:
+        obs.append(("min0_time0_empty_read_nonblock", k.read(s, 10)))
+    except BlockingIOError:
+        obs.append(("min0_time0_empty_read_nonblock", "EAGAIN"))
+    k.fcntl(s, fcntl.F_SETFL, fl)
+    mt(0, 2)
+    t0 = world.now
+    d = k.read(s, 10)
+    obs.append(("min0_time2_empty_read", (d, 0.15 <= world.now - t0 < 1.0)))
+    mt(3, 0)
+    k.arrive(s, b"ab")
+    obs.append(("min3_two_bytes_not_selectable", k.select([s], [], [], 0)[0] == []))
+    k.fcntl(s, fcntl.F_SETFL, fl | os.O_NONBLOCK)
+    try:
+        obs.append(("min3_two_bytes_nonblock_read", k.read(s, 10)))
+    except BlockingIOError:
+        obs.append(("min3_two_bytes_nonblock_read", "EAGAIN"))
+    k.fcntl(s, fcntl.F_SETFL, fl)
+    k.arrive(s, b"cde")
+    obs.append(("min3_selectable", k.select([s], [], [], 0)[0] == [s]))
+    obs.append(("min3_read_small_n", k.read(s, 2)))
+    k.arrive(s, b"fg")
+    obs.append(("min3_read_rest", k.read(s, 10)))
+    mt(1, 0)
     try:
         old = k.sig.set_wakeup_fd(w)
         k.sig.set_wakeup_fd(old)
